@@ -55,7 +55,7 @@ def design_runs(th):
 
 
 def _design_runs(th):
-    w = 4
+    w = 2   # two TLC runs at a time (ThreadPoolExecutor below): four worker threads in all
     runs = [(("AgdCache", "AgdCache_mc.cfg"), dict(workers=w, name="3 keys, 2 values, Count 2/1 + Empty, 2 ids, 4 calls")),
             (("MetricsLedger", "MetricsLedger_mc.cfg"), dict(workers=w, name="ledger: 2 servers, 2 protocols, 2 networks, 2 events"))]
     for v, inv in CACHE_SANITY:
@@ -129,8 +129,8 @@ def signature(what, reason, e):
 
 
 def _act(x):
-    return tuple(str(x.get(k, "")) for k in ("ev", "c", "k", "v", "id", "srv", "proto", "qt", "rc", "ups")
-                 if x.get(k, "") not in ("", None))
+    return tuple(str(x.get(k, "")) for k in ("ev", "c", "k", "v", "id", "s", "p", "nw", "fam", "qt", "rc", "u", "err")
+                 if x.get(k, "") not in ("", "-", None))
 
 
 def _count(c, events, nontrivial):
@@ -292,17 +292,17 @@ def ledger(c, th, lanes):
     ov = c.rewrite_sub(pkg + "/server.go", [(r"\Z", "\nvar _ time.Duration\n", 1)], overlay=ov)
 
     def stepper():
-        behs = c.tlc_sim("MetricsLedger", "MetricsLedger_sim.cfg", num=300 if th else 40, depth=40 if th else 25)
+        behs = c.tlc_sim("MetricsLedger", "MetricsLedger_sim.cfg", num=150 if th else 40, depth=30 if th else 25)
         inp = os.path.join(c.scratch, "ext11_ledger.json")
         json.dump(behs, open(inp, "w"))
         out, _ = c.go_harness(pkg, "^TestVerifEXT11Ledger$", files=["ext11_test.go"], rewrites=ov,
-                              env={"VERIF_IN": inp, "VERIF_NRANDOM": 600 if th else 40})
+                              env={"VERIF_IN": inp, "VERIF_NRANDOM": 200 if th else 40})
         got["ev"] = ev = read_ndjson(out)
         return c.validate_segments("TraceMetricsLedger", "TraceMetricsLedger.cfg", ev)
 
     def stress():
         out, _ = c.go_harness(pkg, "^TestVerifEXT11LedgerStress$", files=["ext11_test.go"], rewrites=ov, race=True,
-                              env={"VERIF_NSTRESS": 40 if th else 6})
+                              env={"VERIF_NSTRESS": 60 if th else 8})
         got["stress"] = ev = read_ndjson(out)
         return c.validate_segments("TraceMetricsLedger", "TraceMetricsLedger.cfg", ev)
 
@@ -362,6 +362,9 @@ def ledger(c, th, lanes):
     c.notes.append("observation (metrics): response codes are NOT folded: a code outside miekg/dns' table becomes its decimal "
                    "number (a series per code, up to 4096 of them per server), while rare query types are folded into OTHER; "
                    "the package comment only says 'a response code string representation'")
+    c.notes.append("observation (metrics, cosmetic): the Help strings of server_request_size_bytes and "
+                   "server_response_size_bytes say 'Time elapsed on processing a DNS query.' (copied from the duration "
+                   "histogram)")
     c.notes.append("observation (metrics, documentation): the package comment lists dns_forward_request_total with 'a single "
                    "label: the upstream address' (the code has 'to' and 'network'), does not list "
                    "ratelimit_allowlisted_total, forward_upstream_status, nor the 'type' label of forward_error_total; it "
